@@ -156,8 +156,9 @@ def discharge(ob, z3_ms=None, cli_s=None, use_cli=True):
                     return dict(status="proved", backend=name, time=time.time() - t0, model=None)
                 if res == "sat":
                     return dict(status="failed", backend=name, time=time.time() - t0, model=cand)
-    if quant:
-        # E. last resort: a long E-matching run (verdicts must not flip when the machine is busy)
+    if quant and cand is None:
+        # E. last resort: a long E-matching run (verdicts must not flip when the machine is busy); skipped when the
+        #    quantifier-free part already has a model (the obligation is then most likely false)
         r, sol = _check(full, ob.goal, z3_ms * 4, **{"smt.mbqi": False})
         if r == z3.unsat:
             return dict(status="proved", backend=backend + ",e-matching(long)", time=time.time() - t0, model=None)
